@@ -31,6 +31,13 @@
 //         shouldCombineSubConstraints(), _subConstraintInfo.size(), the cursor before / after, the `satisfied` flags and the
 //         events I (markAllSubConstraintsAsInactive) R0/R1 (subConstraintsRemaining -> result) G<k>
 //         (getCurrSubConstraintAlternatives, cursor at k) M<k>:<0|1> (markCurrSubConstraintAsActive(b), cursor at k).
+// cml:    family "one ConstrainedMajorizationLayout object, several run() calls, the constraint set changed in between" (seeded C07-7).
+//         The layout part of the line is followed by  nops op*  with op = 1 v k idx*k (push_back cc objects idx.. onto client vector v = 0|1)
+//           | 2 v (setConstraints(&vector v)) | 3 xa ya (run(xa, ya)) | 4 xa ya (runOnce(xa, ya)) | 5 (setAvoidOverlaps())
+//           | 6 u (setUnsatisfiableConstraintInfo(&ux[u], &uy[u]), u = 0|1).  ONE layout object for the whole line; both pairs of lists are
+//         emptied before every run.  Prints  "CML ncalls (CALL opindex R <rects> UX k idx* UY k idx* STALE k IN v m idx* [EXC text])*":
+//         after EVERY run()/runOnce() the rectangles, the lists currently registered (indices into the cc list of the line), the number
+//         of entries that appeared in the pair NOT registered, and the vector in force (v = -1: none) with its members in order.
 #include <cstddef>
 #include <cfloat>
 #include <cstdio>
@@ -76,6 +83,7 @@ struct Case {
     struct Op { int code; bool xa, ya; vector<long> mv; };
     vector<Op> ops;
 };
+static bool g_cmlOps = false;      // mode cml: the op list uses the cml op codes
 
 static void parseCase(Toks &tk, Case &c)
 {
@@ -108,6 +116,14 @@ static void parseCase(Toks &tk, Case &c)
             int nops = tk.next();
             for (int i = 0; i < nops; i++) {
                 Case::Op o; o.code = tk.next(); o.xa = o.ya = true;
+                if (g_cmlOps) {
+                    if (o.code == 1) { o.mv.push_back(tk.next()); int k = tk.next(); for (int j = 0; j < k; j++) o.mv.push_back(tk.next()); }
+                    else if (o.code == 2 || o.code == 6) o.mv.push_back(tk.next());
+                    else if (o.code == 3 || o.code == 4) { o.xa = tk.next() != 0; o.ya = tk.next() != 0; }
+                    else if (o.code != 5) throw std::string("bad cml op code");
+                    c.ops.push_back(o);
+                    continue;
+                }
                 if (o.code == 2) { o.xa = tk.next() != 0; o.ya = tk.next() != 0; }
                 else if (o.code == 4) { int k = tk.next(); for (int j = 0; j < 3 * k; j++) o.mv.push_back(tk.next()); }
                 else if (o.code != 1 && o.code != 3) throw std::string("bad op code");
@@ -458,11 +474,101 @@ static void seqMode(const Case &c)
     for (size_t i = 0; i < rs.size(); i++) delete rs[i];
 }
 
+// mode cml: one ConstrainedMajorizationLayout object through several run() calls with the constraint set changed in between
+static void cmlMode(const Case &c)
+{
+    armWatchdog(g_limit);
+    vpsc::Rectangles rs;
+    for (int i = 0; i < c.n; i++) rs.push_back(new vpsc::Rectangle(c.x[i], c.X[i], c.y[i], c.Y[i]));
+    CompoundConstraints ccs;
+    CompoundConstraints vec[2];
+    vector<int> members[2];
+    UnsatisfiableConstraintInfos ux[2], uy[2];
+    std::ostringstream out;
+    int ncalls = 0, curV = -1, curU = 0;
+    bool built = false;
+    try { built = build(c, rs, ccs); } catch (...) { built = false; }
+    if (!built) { std::cout << "SKIP\n"; armWatchdog(0); return; }
+    for (size_t k = 0; k < c.ops.size(); k++) {
+        const Case::Op &o = c.ops[k];
+        if (o.code == 1) for (size_t j = 1; j < o.mv.size(); j++) if (o.mv[0] < 0 || o.mv[0] > 1 || o.mv[j] < 0 || o.mv[j] >= (long) ccs.size()) { built = false; }
+        if ((o.code == 2 || o.code == 6) && (o.mv[0] < 0 || o.mv[0] > 1)) built = false;
+    }
+    if (!built) { std::cout << "SKIP\n"; armWatchdog(0); for (size_t i = 0; i < ccs.size(); i++) delete ccs[i]; for (size_t i = 0; i < rs.size(); i++) delete rs[i]; return; }
+    ConstrainedMajorizationLayout *alg = nullptr;
+    std::string exc;
+    try {
+        g_phase = "cml-construct";
+        alg = new ConstrainedMajorizationLayout(rs, c.es, nullptr, c.ideal, StandardEdgeLengths, nullptr, nullptr, c.neighbour != 0);
+        alg->setUnsatisfiableConstraintInfo(&ux[0], &uy[0]);
+    } catch (...) { exc = "exception while constructing the layout object"; }
+    bool stop = false;
+    for (size_t k = 0; k < c.ops.size() && !stop; k++) {
+        const Case::Op &o = c.ops[k];
+        if (exc.empty()) {
+            if (o.code == 1) { for (size_t j = 1; j < o.mv.size(); j++) { vec[o.mv[0]].push_back(ccs[o.mv[j]]); members[o.mv[0]].push_back((int) o.mv[j]); } continue; }
+            if (o.code == 2) { alg->setConstraints(&vec[o.mv[0]]); curV = (int) o.mv[0]; continue; }
+            if (o.code == 5) { alg->setAvoidOverlaps(false); continue; }
+            if (o.code == 6) { curU = (int) o.mv[0]; alg->setUnsatisfiableConstraintInfo(&ux[curU], &uy[curU]); continue; }
+        }
+        for (int u = 0; u < 2; u++) {
+            for (size_t i = 0; i < ux[u].size(); i++) delete ux[u][i];
+            for (size_t i = 0; i < uy[u].size(); i++) delete uy[u][i];
+            ux[u].clear(); uy[u].clear();
+        }
+        if (exc.empty()) {
+            try {
+                if (o.code == 3) { g_phase = "cml-run"; alg->run(o.xa, o.ya); }
+                else { g_phase = "cml-runOnce"; alg->runOnce(o.xa, o.ya); }
+            } catch (InvalidVariableIndexException &e) { exc = "InvalidVariableIndexException";
+            } catch (InvalidConstraint &e) { exc = "InvalidConstraint";
+            } catch (vpsc::CriticalFailure &e) { exc = std::string("CriticalFailure ") + e.what();
+            } catch (char *s) { exc = "char* (thrown by vpsc::IncSolver::satisfy)";
+            } catch (std::exception &e) { exc = std::string("std::exception ") + e.what();
+            } catch (...) { exc = "unknown exception"; }
+        }
+        ncalls++;
+        char b[256];
+        out << " CALL " << k << " R";
+        for (int i = 0; i < c.n; i++) {
+            snprintf(b, sizeof b, " %.17g %.17g %.17g %.17g", rs[i]->getCentreX(), rs[i]->getCentreY(), rs[i]->width(), rs[i]->height());
+            out << b;
+        }
+        for (int d = 0; d < 2; d++) {
+            UnsatisfiableConstraintInfos &u = d ? uy[curU] : ux[curU];
+            out << (d ? " UY " : " UX ") << u.size();
+            for (size_t i = 0; i < u.size(); i++) {
+                int idx = -1;
+                for (size_t j = 0; j < ccs.size(); j++) if (ccs[j] == u[i]->cc) idx = j;
+                out << " " << idx;
+            }
+        }
+        out << " STALE " << (ux[1 - curU].size() + uy[1 - curU].size());
+        out << " IN " << curV << " " << (curV < 0 ? 0 : members[curV].size());
+        if (curV >= 0) for (size_t j = 0; j < members[curV].size(); j++) out << " " << members[curV][j];
+        if (!exc.empty()) {
+            for (size_t i = 0; i < exc.size(); i++) if (exc[i] == '\n' || exc[i] == ' ') exc[i] = '_';
+            out << " EXC " << exc;
+            stop = true;
+        }
+    }
+    armWatchdog(0);
+    std::cout << "CML " << ncalls << out.str() << "\n";
+    if (alg) delete alg;
+    for (int u = 0; u < 2; u++) {
+        for (size_t i = 0; i < ux[u].size(); i++) delete ux[u][i];
+        for (size_t i = 0; i < uy[u].size(); i++) delete uy[u][i];
+    }
+    for (size_t i = 0; i < ccs.size(); i++) delete ccs[i];
+    for (size_t i = 0; i < rs.size(); i++) delete rs[i];
+}
+
 int main(int argc, char **argv)
 {
     std::string mode = argc > 1 ? argv[1] : "gen";
     if (argc > 2) g_limit = atoi(argv[2]);
     signal(SIGVTALRM, onVtAlarm);
+    g_cmlOps = (mode == "cml");
     std::string line;
     // libcola prints warnings on stderr; keep stdout for results only
     while (std::getline(std::cin, line)) {
@@ -472,7 +578,7 @@ int main(int argc, char **argv)
         while (is >> v) tk.t.push_back(v);
         Case c;
         try { parseCase(tk, c); } catch (std::string &s) { std::cout << "BADINPUT " << s << "\n"; if (mode == "gen") std::cout << "BADINPUT\n"; continue; }
-        if (mode == "gen") genMode(c); else if (mode == "seq") seqMode(c); else layoutMode(c);
+        if (mode == "gen") genMode(c); else if (mode == "seq") seqMode(c); else if (mode == "cml") cmlMode(c); else layoutMode(c);
         std::cout.flush();
     }
     return 0;
